@@ -421,6 +421,61 @@ def main():
         return txt, th
     emit('construct_graded_mt', gen_graded)
 
+    # ---- BasisVectorIds.tuple_as_sign_and_bitmap: a `for` loop over the tuple with an early `raise` (ids already resolved to positions)
+    def gen_tuple():
+        cls = [n for n in helpers.body if isinstance(n, ast.ClassDef) and n.name == 'BasisVectorIds'][0]
+        f = [n for n in cls.body if isinstance(n, ast.FunctionDef) and n.name == 'tuple_as_sign_and_bitmap'][0]
+        g = [n for n in cls.body if isinstance(n, ast.FunctionDef) and n.name == 'id_as_bitmap'][0]
+        gsrc = [ast.unparse(s) for s in g.body if not (isinstance(s, ast.Expr) and isinstance(s.value, ast.Constant))]
+        if len(gsrc) != 1 or not gsrc[0].startswith('try:\n    return 1 << self.values.index(id)\nexcept ValueError:'):
+            raise Refuse("id_as_bitmap is not `1 << self.values.index(id)`")
+        body = [s for s in f.body if not (isinstance(s, ast.Expr) and isinstance(s.value, ast.Constant))]
+        if [a.arg for a in f.args.args] != ['self', 'blade']:
+            raise Refuse("parameters")
+        F = Fn(f, dict(b='Nat'))
+        pre, names0 = F.lets(body[:2], "  ")
+        if names0 != ['bitmap_out', 's']:
+            raise Refuse("initialisation is not bitmap_out = 0; s = 1")
+        F.types['s'] = 'Int'
+        loop = body[2]
+        if not (isinstance(loop, ast.For) and ast.unparse(loop.iter) == 'blade' and isinstance(loop.target, ast.Name)):
+            raise Refuse("loop is not `for b in blade`")
+        bv = loop.target.id
+        F.types[bv] = 'Nat'
+        lines = []
+        for st in loop.body:
+            if isinstance(st, ast.Assign) and ast.unparse(st.value) == f'self.id_as_bitmap({bv})':
+                nm = st.targets[0].id
+                F.types[nm] = 'Nat'
+                lines.append(f"      let {nm} : Nat := (1 : Nat) <<< {bv}")
+            elif isinstance(st, ast.If) and len(st.body) == 1 and isinstance(st.body[0], ast.Raise) and not st.orelse:
+                t = st.test
+                if F.ty(t) != 'Nat':
+                    raise Refuse("raise condition is not an integer truth value")
+                lines.append(f"      if {F.ex(t)} ≠ 0 then none else")
+            else:
+                txt, _ = F.lets([st], "      ")
+                lines.append(txt)
+        ret = body[3]
+        if not (isinstance(ret, ast.Return) and ast.unparse(ret.value) == '(s, bitmap_out)'):
+            raise Refuse("does not return (s, bitmap_out)")
+        init_bm = [ast.unparse(s.value) for s in body[:2]]
+        if init_bm != ['0', '1']:
+            raise Refuse("initial values are not 0 and 1")
+        txt = ("def tuple_loop : List Nat → Nat → Int → Option (Int × Nat)\n  | [], bitmap_out, s => some (s, bitmap_out)\n"
+               f"  | {bv} :: rest, bitmap_out, s =>\n" + "\n".join(lines) + "\n      tuple_loop rest bitmap_out s\n"
+               "def tuple_as_sign_and_bitmap (blade : List Nat) : Option (Int × Nat) := tuple_loop blade 0 1\n")
+        th = ("theorem tuple_loop_eq (ps : List Nat) (bm : Nat) (s : Int) : GenLoop.tuple_loop ps bm s = Model.tupleLoop ps s bm := by\n"
+              "  induction ps generalizing bm s with\n  | nil => simp [GenLoop.tuple_loop, Model.tupleLoop]\n"
+              "  | cons p ps ih => simp only [GenLoop.tuple_loop, Model.tupleLoop, cre_eq, ih]\n\n"
+              "theorem tuple_as_sign_and_bitmap_eq (ps : List Nat) : GenLoop.tuple_as_sign_and_bitmap ps = Model.tupleLoop ps 1 0 := by\n"
+              "  simp only [GenLoop.tuple_as_sign_and_bitmap, tuple_loop_eq]\n")
+        return txt, th
+    if status.get('cre', {}).get('status') == 'ok':
+        emit('tuple_as_sign_and_bitmap', gen_tuple)
+    else:
+        status['tuple_as_sign_and_bitmap'] = dict(status='refused', reason='cre was refused')
+
     out.append("end GenLoop\n\n")
     names = {}
     for name, t in thms:
